@@ -154,10 +154,13 @@ Definition is_satisfied (rules : list rule) (fit : list rulefit * list fpeer) : 
   end.
 
 (* ---------- newFitWorker ---------- *)
+(* sort.Slice by id; among peers of equal id any order may come out of the unstable sort: this insertion
+   keeps the order of the input, and a list that is already sorted is left as it is (proof/C12:
+   sort_peers_sorted), so every possible outcome is `sort_peers` of some arrangement of the peers *)
 Fixpoint insert_peer (p : peer) (l : list peer) : list peer :=
   match l with
   | [] => [p]
-  | q :: r => if pid p <? pid q then p :: l else q :: insert_peer p r
+  | q :: r => if pid q <? pid p then q :: insert_peer p r else p :: l
   end.
 Definition sort_peers (l : list peer) : list peer := fold_right insert_peer [] l.
 Definition find_store (stores : list store) (id : Z) : option store :=
@@ -283,6 +286,34 @@ Section Search.
                        (subsets k cands))
     end.
 End Search.
+
+(* ---------- valid assignments, enumerated (the brute-force oracle of the monitor) ---------- *)
+Fixpoint fits_of (rules : list rule) (A : list (list fpeer)) : list rulefit :=
+  match rules, A with
+  | r :: rest, sub :: A' => new_rule_fit r sub :: fits_of rest A'
+  | _, _ => []
+  end.
+Fixpoint final_sel (sel : list nat) (A : list (list fpeer)) : list nat :=
+  match A with [] => sel | sub :: A' => final_sel (sel_with sub sel) A' end.
+
+Fixpoint sublists {A} (l : list A) : list (list A) :=
+  match l with
+  | [] => [[]]
+  | x :: r => map (cons x) (sublists r) ++ sublists r
+  end.
+(* every assignment that takes, rule by rule, at most Count of the peers that are still free, satisfy the label
+   constraints and can be converted to the role *)
+Fixpoint all_valid (peers : list fpeer) (rules : list rule) (sel : list nat) : list (list (list fpeer)) :=
+  match rules with
+  | [] => [[]]
+  | r :: rest =>
+      flat_map (fun sub => map (cons sub) (all_valid peers rest (sel_with sub sel)))
+               (filter (fun s => (length s <=? rcount r)%nat) (sublists (candidates peers r sel)))
+  end.
+Definition not_worse_than_any (peers : list fpeer) (rules : list rule) (fit : list rulefit * list fpeer) : bool :=
+  forallb (fun A => match compare_region_fit fit (fits_of rules A, unselected peers (final_sel [] A)) with
+                    | Lt => false | _ => true end)
+          (all_valid peers rules []).
 
 (* ---------- FitRegion on plain inputs ---------- *)
 Definition fit_region (stores : list store) (leader : Z) (peers : list peer) (rules : list rule)
@@ -436,6 +467,9 @@ Definition monitor_fit (stores : list store) (rules : list rule) (leader : Z) (p
                 match lexcmp (fst sp) rfs with
                 | Gt => (Some "C12:not-optimal", Some (rfs, orph))
                 | _ =>
+                    (* independent of fit_spec: against every valid assignment, for small inputs *)
+                    if (length peers <=? 5)%nat && (length rules <=? 3)%nat && negb (not_worse_than_any fps rules (rfs, orph))
+                    then (Some "C12:some-valid-assignment-is-better", Some (rfs, orph)) else
                     if (length (snd sp) <? length orph)%nat then (Some "C12:more-orphans-than-necessary", Some (rfs, orph))
                     else
                       let want := negb (is_nil rules) && stated_satisfied rules rfs && is_nil orph in
